@@ -979,7 +979,11 @@ func setupRegister(env *object.Environment, name string, value int64, body ast.N
 		newBody.PrettyPrint(ps)
 		log.LogVf("replaced %d registers - ok = %t: %s", register.Count, ok, out.String())
 	}
-	if !ok || register.Count == 0 {
+	if !ok {
+		env.ReleaseRegister(register) // not usable for this body: give the slot back (it is the last one made).
+		return register, body, false
+	}
+	if register.Count == 0 {
 		return register, body, ok // original body unchanged.
 	}
 	return register, newBody, ok
@@ -1003,15 +1007,15 @@ func (s *State) evalForInteger(fe *ast.ForExpression, start *int64, end int64, n
 	newBody = fe.Body
 	// else fall back to a plain variable like with NoReg (also for upper case names: those are constants).
 	if name != "" && !s.NoReg && s.env.HasRegisters() && !object.Constant(name) {
-		var ok bool
-		register, newBody, ok = setupRegister(s.env, name, int64(startValue), fe.Body)
-		if !ok {
-			return s.Errorf("for loop register %s shouldn't be modified inside the loop", name)
+		// When the body can't work on a register (it has name++ or a function literal using the variable)
+		// the loop runs on a plain variable, like with NoReg.
+		if reg, nbody, ok := setupRegister(s.env, name, int64(startValue), fe.Body); ok {
+			register, newBody = reg, nbody
+			ptr = register.Ptr()
+			// Release on every way out of the loop (break, return, error, panic), not only the normal end,
+			// or the environment (the long lived top level one in particular) runs out of registers.
+			defer s.env.ReleaseRegister(register)
 		}
-		ptr = register.Ptr()
-		// Release on every way out of the loop (break, return, error, panic), not only the normal end,
-		// or the environment (the long lived top level one in particular) runs out of registers.
-		defer s.env.ReleaseRegister(register)
 	}
 	for i := startValue; i < endValue; i++ {
 		if ptr == nil && name != "" {
